@@ -10,7 +10,9 @@
    3 key command: at some prefix of the operations neither the key in use nor the new key exists,
      or the key in use was removed by key remove;
    4 key files / opening passwords after the run differ from the replayed operations;
-   5 hypotheses (fresh id, key in use present) do not hold. *)
+   5 hypotheses (fresh id, key in use present) do not hold;
+   6 lock-out: after the command no known password opens the repository, or the command reported
+     success for a new password that does not open it. *)
 From Restic Require Import Base.Prelude Gen.ParamsC29.
 
 Module C29m.
@@ -130,7 +132,9 @@ Record hcase := mkH {
   h_trace : list kop;                         (* successful Save/Remove of key files, in order *)
   h_keys_after : list N;                      (* key files afterwards *)
   h_opens_after : list (N * bool);            (* for each pool password: does it open (<= maxKeys keys) *)
-  h_same_master : bool }.                     (* every password that opens yields the original master key *)
+  h_same_master : bool;                       (* every password that opens yields the original master key *)
+  h_order : N;                                (* unreadable new key file: 1 = listed after all other keys, 2 = before, 0 = as it comes *)
+  h_ret_ok : bool }.                          (* the command returned without error *)
 
 Inductive case := CS (c : scase) | CH (c : hcase).
 
@@ -180,6 +184,18 @@ Definition h_after_ok (c : hcase) : bool :=
   forallb (fun pb => Bool.eqb (snd pb) (pw_present st (fst pb))) (h_opens_after c) &&
   h_same_master c.
 
+(* after ANY run (complete, cut, faulty) some known password still opens the repository; and when
+   key add / key passwd reports success, the new password opens it *)
+Definition cmd_newpw (c : cmd) : option N := match c with CAdd pw | CPasswd pw => Some pw | CRemove _ => None end.
+Definition h_no_lockout (c : hcase) : bool :=
+  existsb (fun pb => snd pb) (h_opens_after c) &&
+  (if h_ret_ok c then
+     match cmd_newpw (h_cmd c) with
+     | Some pw => existsb (fun pb => N.eqb (fst pb) pw && snd pb) (h_opens_after c)
+     | None => true
+     end
+   else true).
+
 Fixpoint is_prefix_of (p l : list kop) : bool :=
   match p, l with
   | [], _ => true
@@ -200,9 +216,18 @@ Definition shared_pw_traces (c : hcase) : list (list kop) :=
        then [[KSave n pw; KRemove cur]] else [])
   | CRemove _ => [cmd_ops cur n true (h_cmd c)]
   end.
-Definition cmd_newpw (c : cmd) : option N := match c with CAdd pw | CPasswd pw => Some pw | CRemove _ => None end.
+Definition bad_listing (c : hcase) (pw : N) : list key :=
+  let bad := mkK (h_newid c) pw (h_master c) false in
+  if N.eqb (h_order c) 1 then h_before c ++ [bad] else bad :: h_before c.
 
 Definition h_model_agrees (c : hcase) : bool :=
+  (* unreadable new key at a known listing position: the listing-based model is exact *)
+  if negb (h_vok c) && negb (h_cut c) && negb (N.eqb (h_order c) 0) then
+    match cmd_newpw (h_cmd c) with
+    | Some pw => list_eqb kop_eqb (h_trace c) (cmd_ops_listing (bad_listing c pw) (h_cur c) (h_newid c) (h_cmd c))
+    | None => list_eqb kop_eqb (h_trace c) (cmd_ops (h_cur c) (h_newid c) true (h_cmd c))
+    end
+  else
   if negb (h_vok c) && negb (h_cut c) &&
      match cmd_newpw (h_cmd c) with Some pw => pw_present (h_before c) pw | None => false end
   then existsb (fun t => list_eqb kop_eqb (h_trace c) t) (shared_pw_traces c) else
@@ -213,7 +238,7 @@ Definition h_model_agrees (c : hcase) : bool :=
 Definition check_C29 (c : case) : bool :=
   match c with
   | CS s => check_search s
-  | CH h => h_wf h && h_safe h && h_after_ok h
+  | CH h => h_wf h && h_safe h && h_after_ok h && h_no_lockout h
   end.
 
 Definition check_case (c : case) : nat :=
@@ -225,6 +250,7 @@ Definition check_case (c : case) : nat :=
   | CH h =>
       if negb (h_wf h) then 5%nat
       else if negb (h_safe h) then 3%nat
+      else if negb (h_no_lockout h) then 6%nat
       else if negb (h_after_ok h) then 4%nat
       else if h_model_agrees h then 0%nat else 1%nat
   end.
